@@ -28,7 +28,7 @@ USER_LEAVES = {"enum_str", "enum_int", "intenum", "strenum", "flag", "intflag", 
 
 KINDS = ("enum", "intenum", "flag", "strenum", "namedtuple", "typing_namedtuple", "typeddict", "make_dataclass", "make_dataclass_mixin",
          "newtype", "strsub", "listsub", "dictsub")
-SHAPES = ("direct", "list", "dictval", "dictkey", "opt", "union_int", "union_first", "tuple", "defaultdict", "literal", "nested_dc", "set")
+SHAPES = ("direct", "list", "dictval", "dictkey", "opt", "union_int", "union_first", "tuple", "defaultdict", "literal", "nested_dc", "set", "generic_base")
 TWINS = ("dataclass", "enum", "namedtuple", "typeddict", "strsub")
 
 
@@ -39,7 +39,11 @@ def bounds(tier):
 
 def _schemas(tier):
     maxd = 1 if tier == "quick" else 2
-    return [d for d in space.schemas(tier) if space.depth(d) <= maxd]
+    out = [d for d in space.schemas(tier) if space.depth(d) <= maxd]
+    if tier == "quick":
+        # depth 2 where a user-defined class sits directly under any wrapper (Annotated, NewType, TypeVar, Optional, containers, ...)
+        out += [d for d in space.schemas(tier) if space.depth(d) == 2 and any(c[0] in ("dc", "nt", "td", "ntf") for c in space.children(d))]
+    return out
 
 
 def units(tier):
@@ -359,6 +363,14 @@ def shape_of(shape, T, vals, kind, ctx=None):
                                namespace={"__module__": ctx.modname}, module=ctx.modname)
         ctx.ns["InnerDC"] = Inner      # the helper class itself is an ordinary module-level class
         return Inner, Inner(v, [v]), lambda r: [r.v] + list(r.w)
+    if shape == "generic_base":
+        # the class is the argument of a generic base: fields annotated with the TypeVar resolve to it
+        ctx.ns["T"] = typing.TypeVar("T")
+        ctx.ns["Generic"] = typing.Generic
+        G = ctx.execute("GB", "@dataclass\nclass GB(Generic[T]):\n    v: T\n    w: List[T] = field(default_factory=list)\n")
+        C = make_dataclass("CB", [], bases=(G[T],), namespace={"__module__": ctx.modname}, module=ctx.modname)
+        ctx.ns["CB"] = C
+        return C, C(v, [v]), lambda r: [r.v] + list(r.w)
     raise ValueError(shape)
 
 
